@@ -235,6 +235,17 @@ func (k Keeper) SetCollectorLookupTable(ctx sdk.Context, records types.Collector
 	return nil
 }
 
+// SetGenCollectorLookupTable stores a lookup table record exactly as exported (genesis import).
+func (k Keeper) SetGenCollectorLookupTable(ctx sdk.Context, record types.CollectorLookupTableData) {
+	var (
+		store = ctx.KVStore(k.storeKey)
+		key   = types.CollectorLookupTableMappingKey(record.AppId, record.CollectorAssetId)
+		value = k.cdc.MustMarshal(&record)
+	)
+
+	store.Set(key, value)
+}
+
 // GetCollectorLookupTable returns collector lookup table.
 func (k Keeper) GetCollectorLookupTable(ctx sdk.Context, appID, assetID uint64) (collectorLookup types.CollectorLookupTableData, found bool) {
 	var (
